@@ -100,12 +100,47 @@ def do_corr(res, lines):
                 res.coverage["pylite_not_interpretable"] = res.coverage.get("pylite_not_interpretable", 0) + 1
                 continue
             res.diffs.append(dict(op=l, py=a, model=b))
-    n, diffs, py = corr.compare(lines)
+    # the implementation answers all lines in one process, in order: failing operations are woven in between them
+    # (a frame cut inside its payload, a construction with one value that cannot fit), so that what a line answers is
+    # also what it answers after an operation that was abandoned half-way
+    rr = random.Random(len(lines) * 7919 + 13)
+    woven, real = [], []
+    for l in lines:
+        if rr.random() < 0.04 and len(woven) - len(real) < 400:
+            d = disturbed(rr, l)
+            if d:
+                woven.append(d)
+        real.append(len(woven))
+        woven.append(l)
+    n, diffs, pyw = corr.compare(woven)
     res.count(n)
     res.coverage["traces_validated_against_impl"] = res.coverage.get("traces_validated_against_impl", 0) + n
+    res.coverage["failing_ops_woven_in"] = res.coverage.get("failing_ops_woven_in", 0) + len(woven) - len(lines)
     for l, a, b in diffs:
         res.diffs.append(dict(op=l, py=a, model=b))
-    return py
+    return [pyw[i] for i in real]
+
+
+def disturbed(rr, line):
+    """an operation derived from `line` that is likely to fail part-way: a `parse` whose payload is cut (length field
+    and checksum made right again), a keyword `construct` with one value far too large"""
+    t = line.split(" ")
+    try:
+        if t[0] == "parse" and len(t) == 5:
+            fr = bytes.fromhex(t[4])
+            if len(fr) < 8 + 4 or fr[:2] != b"\xb5\x62":
+                return None
+            pl = fr[6:-2]
+            cut = pl[:rr.randrange(1, len(pl))]
+            return f"parse {t[1]} {t[2]} {t[3]} {gen.frame(fr[2:3], fr[3:4], cut).hex()}"
+        if t[0] == "construct" and len(t) > 6 and t[5] == "A":
+            grouped = [k for k in range(6, len(t)) if ":" in t[k].split("=", 1)[0]]
+            k = rr.choice(grouped) if grouped and rr.random() < 0.7 else rr.randrange(6, len(t))
+            name = t[k].split("=", 1)[0]
+            return " ".join(t[:k] + [name + "=i99999999999999999999"] + t[k + 1:])
+    except Exception:  # noqa
+        return None
+    return None
 
 
 def attrs_of(ans):
